@@ -182,6 +182,27 @@ pub fn check(c: &Case) -> Outcome {
             }
         }
     }
+    // with the terminal flags of the recipes the run stops at an event: every reported event then lies inside the
+    // integrated span, i.e. not later than the stop
+    if resolved.iter().any(|(e, _)| e.terminal.is_some()) {
+        let evt: Vec<EvSpec> = resolved.iter().map(|(e, _)| e.clone()).collect();
+        let mut it = Instr::new(&prob, &evt);
+        it.dir = d;
+        it.use_jac = c.analytic_jac;
+        if let RunResult::Ok(st) = solve(&it, sp.x0, sp.xend, &prob.y0(), &opts(c, n, true, None)) {
+            if st.status == ivp::prelude::Status::UserInterrupt {
+                let t_stop = *st.t.last().unwrap();
+                for (k, te) in st.t_events.iter().enumerate() {
+                    if te.len() != st.y_events[k].len() {
+                        return Outcome::viol(format!("{}: function {}: {} event times but {} event states (terminal run)", name, k, te.len(), st.y_events[k].len()));
+                    }
+                    if let Some(t) = te.iter().find(|t| (**t - t_stop) * d > 0.0) {
+                        return Outcome::viol(format!("{}: the run stops at the terminal event at {:e}, yet an event of function {} ({:?}) is reported at {:e}, outside the integrated span", name, t_stop, k, evt[k].g, t));
+                    }
+                }
+            }
+        }
+    }
     Outcome::pass(format!("{}:{}", name, if total == 0 { "no-events" } else { "events" }), genuine >= 1, json!({"events": total, "strict_bracket_events": genuine, "worst_g_over_bound": worst_g, "steps": m - 1}))
 }
 
